@@ -149,7 +149,7 @@ func impMemOff(m *moduleEngine) int          { return int(m.parent.offsets.Impor
 // exit) or a module found closed afterwards - the call engine's exit code is reset, so that the same
 // function object can be called again. Contract on the deferred function literal of callWithStack,
 // verified from an arbitrary state of its captured variables with recover() arbitrary.
-//@ prop C06
+//@ prop C06 C07
 // (native stack walking / symbolisation: unsafe, assumed not to touch the call engine's Go state)
 //@ func (c *callEngine) addFrame(builder wasmdebug.ErrorBuilder, addr uintptr) (def api.FunctionDefinition, listener experimental.FunctionListener)
 //@   trusted
@@ -162,4 +162,5 @@ func impMemOff(m *moduleEngine) int          { return int(m.parent.offsets.Impor
 //@   vars (c *callEngine, err error)
 //@   requires c != nil
 //@   ensures[exit-code-reset-after-any-error] err != nil ==> c.execCtx.exitCode == wazevoapi.ExitCodeOK
+//@   ensures[closed-module-is-never-success] err == nil ==> c.parent.module.Closed.Load() == 0
 //@   nosafety
